@@ -27,11 +27,11 @@ for _pid, _t in {
     CLAIMED[_pid] = (SEARCH_NOTE, "Exhaustive over all multigraphs with <=3 nodes / <=3 edges (quick; thorough adds 2 edge values, all filter subsets, 4 nodes) x roots x targets x filters: " + _t + ". Seeded random graphs (12 / 30 nodes) beyond.", "§4 " + _pid)
 
 CLAIMED["C11"] = ("TLA+ Scc (both Kosaraju passes over EVERY container iteration order pi, on DfsOrder's functional orderings) model-checked against IsSccPartition; expected partition per graph emitted by TLC and compared with scc() on several fresh containers / insertion orders; disagreements and random 16/30-node graphs judged by TLC",
-  "All directed multigraphs with 3 nodes/<=4 edges and 4 nodes/<=3 edges (thorough: <=5 / <=4) x all container orders in the model; 4-8 fresh hash maps per graph on digraph and sync_digraph.", "§4 C11")
+  "All directed multigraphs with 3 nodes/<=4 edges and 4 nodes/<=4 edges (thorough: <=5 / <=5) x all container orders in the model; 12 (thorough 24) fresh hash maps per graph on digraph and sync_digraph; random graphs on 43 (thorough 204) fresh containers each.", "§4 C11")
 CLAIMED["C12"] = ("TLA+ Serde: RoundTripAllOrders (every small graph x every container order) model-checked; every emitted graph is round-tripped through the real serde_json and serde_cbor code of all four containers; graph/ser/de events judged by TLC (document is Serialize(graph, pi) for its own pi; result satisfies RoundTripOK)",
   "All multigraphs with 3 nodes/<=3 edges/2 values (thorough <=4) x 2 formats x several fresh containers on all four flavours, seeded graphs up to 40 nodes.", "§4 C12")
 CLAIMED["C13"] = ("TLA+ Serde: every small abstract document (repeated keys, undeclared endpoints, empty lists) enumerated by TLC with the outcome of Deser, checked against UntrustedOK; rendered as JSON and CBOR and deserialised by the real code under a watchdog; disagreements and seeded structural/byte-level mutations judged by TLC",
-  "All documents with <=2 node entries / <=2 edge entries over 3 keys (thorough <=3/<=3) x 2 formats x 4 container types; 2 000 (thorough 50 000) mutated documents per flavour. Panic or hang is a rejected outcome.", "§4 C13")
+  "All documents with <=2 node entries / <=2 edge entries over 3 keys (thorough <=3/<=3) x 2 formats x 2 key types (u32, long non-ASCII String) x 4 container types; 2 000 (thorough 50 000) mutated documents per flavour. Panic or hang is a rejected outcome.", "§4 C13")
 
 CLAIMED["C18"] = ("TLA+ Container (key->node map over objects incl. a duplicate-key object, Views, CStep, DotOK) : MapLaws model-checked; every (container state, operation) case TLC emits replayed on all four containers through handles handed out by the container; DOT exports of every state and seeded long histories judged event-by-event by TLC (TraceContainer)",
   "All container states over 3 keys + 1 duplicate-key object x adjacency states with <=2 edges (thorough: 2 values, <=3 edges) x every operation; to_dot/to_dot_with_attr under the callback family {none,one,two attrs}^3; random histories over 6 keys + 2 duplicates.", "§4 C18")
@@ -40,13 +40,13 @@ CLAIMED["C15"] = ("paired trace validation: seeded whole-API programs executed s
   "The specification has a single model per pair (only Directed differs); 50 programs x 200 calls per pair (thorough 1000 x 500) over mutations, container calls, all traversals with options, observers, comparisons, scc, serde and DOT; all enumerated cases of the other checks on both members.", "§4 C15")
 
 CLAIMED["C20"] = ("TLA+ MC_Cursor (positional cursors over the live lists of Adjacency, Search step machine, scripts of operations run after the k-th yield) model-checked (LastYieldExists, Bounded, MirrorKept); every (graph, loop, script) run replayed inside the real loop bodies / closures on all four flavours; disagreements and seeded random runs judged step by step by TLC (TraceCursor); self-deadlocks reported through the lock-point hook",
-  "All graphs with 3 nodes/<=2 edges (thorough <=3) x loops {iter_out,iter_in,iter,bfs,dfs,pfs,pre,post} x directions x cycle mode x every single-operation script at every yield index (thorough: also 2-operation scripts); random 6-node runs with up to 6 script operations.", "§4 C20")
+  "All graphs with 3 nodes/<=2 edges (thorough <=3) x loops {iter_out,iter_in,iter,bfs,dfs,pfs,pre,post} x directions x cycle mode x every single-operation script at every yield index (thorough: also 2-operation scripts); random 6-node runs with up to 6 script operations. Plain edge loops are driven with size_hint() between steps; harness built with overflow checks.", "§4 C20")
 
 CLAIMED["C19"] = ("TLA+ Ownership (strong holders = program handles, container, live Edge lists / orderings / Paths; adjacency entries weak) model-checked (ResultsKeepAlive, EdgesOwnNothing, AllDroppedAllReleased); every (state, action) case replayed on all four flavours with drop-counting payloads; released set compared after every step, all result nodes dereferenced, everything dropped at the end",
   "All states over 3 objects / <=2 weak edges (thorough <=3) incl. cycles and self-loops / <=2 handles / container / one live result x every enabled action, each built from scratch.", "§4 C19")
 
 CLAIMED["C17"] = ("TLA+ Locks (every public call as a program of lock steps, poisoning, Linearize property layer) explored by TLC over every scenario x interleaving; the same scenarios executed with real threads on the real RwLocks under a deterministic scheduler on the lock-point hook (all grant sequences, real blocking probed, writer preference simulated); per scenario the real outcome set must equal the model's, every outcome is judged by TLC (Linearizable, panic, poison, deadlock); listed design defects reported as KNOWN-FINDING by scenario class",
-  "All scenarios of 2 threads x 1 call over 2 nodes and initial graphs with <=2 edges (thorough: 2x2 calls, 3 nodes, 3 threads), every interleaving of lock acquisitions: ~12 000 scenarios / ~560 000 real executions per quick run. 26 scenario classes are genuine, unrepaired design-level defects (known_findings.json, replayable examples in known_findings_replays/); any other failing class is a VIOLATION. Also a free-running stress round and the liveness property EveryRunEnds.", "§4 C17")
+  "All scenarios of 2 threads x 1 call over 2 nodes and initial graphs with <=1 edge, plus <=2 edges with values {1,2} (quick: on the real locks only the initial graphs with parallel edges of different values; thorough: all, and 3 nodes), a rotational 3-thread family, every interleaving of lock acquisitions: ~12 000 scenarios / ~560 000 real executions per quick run. 26 scenario classes are genuine, unrepaired design-level defects (known_findings.json, replayable examples in known_findings_replays/); any other failing class is a VIOLATION. Also a free-running stress round and the liveness property EveryRunEnds.", "§4 C17")
 
 CLAIMED["C14"] = ("TLA+ Macros (invocation ASTs, Denote = the insert/connect fold or a panic naming the unlisted key, MacroOK property layer) enumerated and checked (FoldOK) by TLC; every AST x 4 forms x 4 macros rendered as Rust source, compiled against the working tree and run; observed graph / panic compared with the emitted denotation, disagreements judged by TLC",
   "All invocations with <=2 node entries (thorough <=3) over keys {1,2} with targets in {1,2,3} (3 = unlisted), absent / empty / non-empty edge lists, self-loops, repeats, forward references x 4 forms x 4 macros (~2 700 generated programs per quick run) plus the *_node!/*_connect! helpers.", "§4 C14")
